@@ -431,6 +431,7 @@ def run(rep: Report, tier: str) -> None:
 	rule_bracket_layout(rep, tz)
 	rule_quote_escape(rep, tz)
 	rule_indent_state(rep, tz, tk)
+	rule_context_fresh(rep, tz)
 	rule_source_map(rep, tk)
 
 	# domain order
@@ -518,3 +519,64 @@ def _lengths_tried(ps) -> list[int] | None:
 		except ValueError:
 			return None
 	return None
+
+
+def rule_context_fresh(rep: Report, tz) -> None:
+	"""tokens(w(s)) == tokens(s) and balanced INDENT/DEDENT for EVERY source: the layout state (indent unit, nest level, bracket depth) lives in a
+	Tokenizer.Context that must be created anew for each source. A context that outlives one parse (a parameter default built when the def runs, an
+	instance or class attribute) carries the indent unit / an open bracket of the previous source into the next one."""
+	from vlib.match import may_reach
+	r = rep.rule('C13/layout-state-fresh-per-source', 'every Context handed to the white-space / symbol handlers by the Tokenizer is constructed inside the call that processes one source (no parameter default, no attribute of self / the class)', floor=1)
+	tcls = tz.cls('Tokenizer')
+	if tcls is None:
+		raise AnalysisError('Tokenizer vanished')
+	takers = {name for name, defs in tcls.methods.items() for a in defs[-1].node.args.args if a.annotation is not None and unparse(a.annotation).strip("'").endswith('Context')}
+	n_sites = 0
+	for name, defs in tcls.methods.items():
+		f = defs[-1]
+		for c_ in walk_no_nested(f.node):
+			if not isinstance(c_, ast.Call):
+				continue
+			direct = isinstance(c_.func, ast.Attribute) and c_.func.attr in takers and isinstance(c_.func.value, ast.Name) and c_.func.value.id == 'self'
+			# dispatch through the handler table: `handler = self._handlers[domain]; handler(context, tokens, index)`
+			via_table = isinstance(c_.func, ast.Name) and any(isinstance(getattr(d_, 'value', None), ast.Subscript) and unparse(d_.value.value).startswith('self.') for d_ in (may_reach(f.node, c_.func) or []))
+			if not direct and not via_table:
+				continue
+			first_ctx = [t for t in sorted(takers) if len(tcls.method(t).node.args.args) > 1 and tcls.method(t).node.args.args[1].annotation is not None and unparse(tcls.method(t).node.args.args[1].annotation).strip("'").endswith('Context')]
+			if not direct and not first_ctx:
+				continue
+			g = tcls.method(c_.func.attr) if direct else tcls.method(first_ctx[0])
+			if via_table:
+				c_ = ast.copy_location(ast.Call(func=ast.Attribute(value=ast.Name(id='self', ctx=ast.Load()), attr='<handler table>', ctx=ast.Load()), args=c_.args, keywords=c_.keywords), c_)
+			params = [a.arg for a in g.node.args.args][1:]
+			for p_, a in zip(params, c_.args):
+				ann = next((x.annotation for x in g.node.args.args if x.arg == p_), None)
+				if ann is None or not unparse(ann).strip("'").endswith('Context'):
+					continue
+				n_sites += 1
+				key = f'{name}->{c_.func.attr}:{unparse(a)}'
+				where = (TOKENIZER_PY, c_.lineno)
+				if isinstance(a, ast.Attribute):
+					r.violate(key, where, f'Tokenizer.{name} hands `{unparse(a)}` to {c_.func.attr}: layout state stored on the instance / class survives the source it was built for (indent unit, open brackets of the previous source)', unparse(c_)[:100])
+					continue
+				if isinstance(a, ast.Call):
+					r.ok(key, where)
+					continue
+				if not isinstance(a, ast.Name):
+					r.skip(key, where, f'context argument `{unparse(a)}` not classified')
+					continue
+				defs_ = may_reach(f.node, a)
+				if defs_ is None:
+					# a parameter of the calling method: fresh only if it has no default built at definition time and the method is itself handed a fresh one
+					args_ = f.node.args
+					pos = args_.posonlyargs + args_.args
+					dflt = dict(zip([x.arg for x in pos][len(pos) - len(args_.defaults):], args_.defaults))
+					if a.id in dflt and isinstance(dflt[a.id], ast.Call):
+						r.violate(key, where, f'Tokenizer.{name} hands its parameter `{a.id}` (default `{unparse(dflt[a.id])}`, built ONCE when the def statement runs) to {c_.func.attr}: every parse that omits the argument shares one Context, so after a tab-indented source a 4-space source yields 1 INDENT and 4 DEDENTs per level, and an unclosed bracket suppresses every later line break', unparse(c_)[:100])
+					else:
+						r.ok(key, where, message='context supplied by the caller')
+					continue
+				fresh = all(isinstance(getattr(d_, 'value', None), ast.Call) and unparse(d_.value.func).split('.')[-1] in ('Context', 'make') for d_ in defs_)
+				r.check(fresh, key, where, f'Tokenizer.{name} hands `{a.id}` to {c_.func.attr}, bound by {[unparse(d_)[:60] for d_ in defs_]}: not a Context constructed inside this call', unparse(c_)[:100])
+	if n_sites == 0:
+		r.skip('context-sites', tcls.where, 'no Tokenizer method passes a Context to a handler')
